@@ -128,7 +128,10 @@ fn panic_sig(entry: &str, msg: &str, loc: &str) -> String {
 fn build_document(data: &[u8]) -> Result<Option<String>, (String, String)> {
     catch(|| {
         let mut u = Unstructured::new(data);
-        match DocumentBuilder::new(&mut u).build() {
+        crate::runner::phase("DocumentBuilder::build");
+        let built = DocumentBuilder::new(&mut u).build();
+        crate::runner::phase("");
+        match built {
             Ok(doc) => Some(String::from(doc)),
             Err(_) => None,
         }
@@ -305,7 +308,10 @@ fn build_operation(schema_text: &str, data: &[u8]) -> Result<Result<Option<Strin
             Ok(b) => b,
             Err(_) => return Ok(None),
         };
-        match b.operation_definition() {
+        crate::runner::phase("with_document+operation_definition");
+        let r = b.operation_definition();
+        crate::runner::phase("");
+        match r {
             Ok(Some(op)) => Ok(Some(String::from(op))),
             Ok(None) => Err("no-operation (None)".to_string()),
             Err(_) => Ok(None),
